@@ -773,9 +773,9 @@ class Operation:
             callback_details = CallbackDetails.from_dict(callback_details_input)
 
         chained_invoke_details = None
-        if chained_invoke_details := data.get("ChainedInvokeDetails"):
+        if chained_invoke_details_input := data.get("ChainedInvokeDetails"):
             chained_invoke_details = ChainedInvokeDetails.from_dict(
-                chained_invoke_details
+                chained_invoke_details_input
             )
 
         return cls(
